@@ -106,11 +106,14 @@ def run_instance(r, sizes, W, demands, solvers, limits=False, base=None, opt=Non
     from solvor.bp import solve_bp
     from solvor.cg import solve_cg
 
+    known = opt
     if opt is None:
         opt = min_rolls(sizes, W, demands)
     single = sum(-(-d // (W // s)) for d, s in zip(demands, sizes))
     nontrivial = opt < single
     wit00 = {"roll_width": W, "piece_sizes": list(sizes), "demands": list(demands)}
+    if known is not None:
+        wit00["optimum_by_construction"] = known  # replay uses it too: the search-based oracle does not reach these sizes
     runs = [(name, dict(base or {})) for name in solvers]
     if limits:
         runs += [(name, lim) for name in solvers for lim in LIMITS if not ("max_nodes" in lim and name == "solve_cg")]
@@ -461,6 +464,9 @@ def replay(v):
             if x["function"] == v["function"]:
                 return x
         return None
-    run_instance(r, w["piece_sizes"], w["roll_width"], w["demands"], (v["function"],), limits=bool(w.get("limits")))
+    base = None
+    if w.get("optimum_by_construction") is not None and isinstance(w.get("limits"), dict):
+        base = dict(w["limits"])  # families with a closed-form optimum pass their budget as base configuration
+    run_instance(r, w["piece_sizes"], w["roll_width"], w["demands"], (v["function"],), limits=bool(w.get("limits")) and base is None, base=base, opt=w.get("optimum_by_construction"))
     r["violations"] = [x for x in r["violations"] if x["witness"].get("limits") == w.get("limits")]
     return r["violations"][0] if r["violations"] else None
